@@ -70,15 +70,12 @@ func instance(t *rapid.T, label string, p primer, nmis int) string {
 	pick := rapid.SliceOfN(rapid.IntRange(0, 11), n, n).Draw(t, label+"_pick")
 	b := make([]byte, n)
 	for i, set := range p {
-		var in, out []byte
+		var in []byte
 		for j, c := range []byte("acgt") {
 			if set&(1<<j) != 0 {
 				in = append(in, c)
-			} else {
-				out = append(out, c)
 			}
 		}
-		_ = out
 		b[i] = in[pick[i]%len(in)]
 	}
 	if nmis > 0 {
